@@ -88,6 +88,7 @@ type wireOp struct {
 	// inexpressible: the request asks for something the negotiated version cannot carry (a
 	// custom payload before protocol 4); it must fail on the client, nothing of it is sent
 	inexpressible bool
+	why           string // what it asks for, if not a custom payload
 	// batchBind: the entries of the batch are added with Batch.Bind (values come from a
 	// binding callback); batchBindNamed: the callback returns named values, which a BATCH
 	// cannot carry (protocol 3+): the request must be refused, nothing may be sent
@@ -376,7 +377,7 @@ func runWire(e *Env) {
 			}
 			op.mainSeen++
 			if op.inexpressible {
-				k.Violate("C03", "C03/inexpressible-request-sent", "%s asks for a custom payload on protocol %d, which cannot carry one; the request was sent all the same", op.token, proto)
+				k.Violate("C03", "C03/inexpressible-request-sent", "%s asks for %s on protocol %d, which cannot carry that; the request was sent all the same", op.token, op.whyText(), proto)
 			}
 			if rq.Query != op.stmt {
 				k.Violate("C03", "C03/query-statement-differs", "QUERY carries %q, the caller's statement is %q", rq.Query, op.stmt)
@@ -392,7 +393,7 @@ func runWire(e *Env) {
 			op := ops[p.token]
 			op.mainSeen++
 			if op.inexpressible {
-				k.Violate("C03", "C03/inexpressible-request-sent", "%s asks for a custom payload on protocol %d, which cannot carry one; the request was sent all the same", op.token, proto)
+				k.Violate("C03", "C03/inexpressible-request-sent", "%s asks for %s on protocol %d, which cannot carry that; the request was sent all the same", op.token, op.whyText(), proto)
 			}
 			if op.rebind && op.mainSeen == 1 {
 				// the execution before the values were changed: answered with nothing to read
@@ -494,6 +495,10 @@ func runWire(e *Env) {
 // ---------------------------------------------------------------------------------
 // generation
 
+// wireUnsetBeforeV4 lets wireGenBinds draw UnsetValue on protocols 1-3 (set by the one caller
+// that knows how to expect the refusal).
+var wireUnsetBeforeV4 = false
+
 func wireGenBinds(k *kernel.Kernel, proto int, n int, allowNamed bool) ([]wireBind, bool) {
 	tp := k.Tape
 	named := allowNamed && proto >= 3 && n > 0 && tp.Chance(1, 5)
@@ -513,6 +518,11 @@ func wireGenBinds(k *kernel.Kernel, proto int, n int, allowNamed bool) ([]wireBi
 			if proto >= 4 {
 				wb.unset, wb.val, wb.bytes = true, gocql.UnsetValue, nil
 				k.Fault("req.unset-value")
+			} else if wireUnsetBeforeV4 && tp.Chance(1, 4) {
+				// "not set" cannot be said before protocol 4 (a negative length means null
+				// there): the request cannot be expressed
+				wb.unset, wb.val, wb.bytes = true, gocql.UnsetValue, nil
+				k.Fault("req.unset-value-before-v4")
 			}
 		}
 		if named {
@@ -586,7 +596,9 @@ func wireGenOp(k *kernel.Kernel, token string, proto int) *wireOp {
 		}
 	case "exec":
 		n := tp.Next(5)
+		wireUnsetBeforeV4 = true
 		op.binds, op.named = wireGenBinds(k, proto, n, true)
+		wireUnsetBeforeV4 = false
 		if proto >= 2 && tp.Chance(1, 1200) {
 			// the most values a frame can count (a [short]), and one more than that: the first
 			// must arrive intact, the second cannot be expressed
@@ -600,6 +612,11 @@ func wireGenOp(k *kernel.Kernel, token string, proto int) *wireOp {
 				op.inexpressible, op.tooManyValues = true, true
 			}
 			k.Fault(fmt.Sprintf("req.%d-bound-values", n))
+		}
+		for _, b := range op.binds {
+			if b.unset && proto < 4 {
+				op.inexpressible, op.why = true, "a value left unset (UnsetValue)"
+			}
 		}
 		ph := make([]string, n)
 		for i := range ph {
@@ -980,7 +997,7 @@ func wireCheckBatch(k *kernel.Kernel, ops map[string]*wireOp, prepared map[strin
 	}
 	op.mainSeen++
 	if op.inexpressible {
-		k.Violate("C03", "C03/inexpressible-request-sent", "%s asks for a custom payload on protocol %d, which cannot carry one; the request was sent all the same", op.token, proto)
+		k.Violate("C03", "C03/inexpressible-request-sent", "%s asks for %s on protocol %d, which cannot carry that; the request was sent all the same", op.token, op.whyText(), proto)
 	}
 	what := "BATCH " + op.token
 	if rq.BatchType != byte(op.batchType) {
@@ -1068,6 +1085,9 @@ func wireRunOp(k *kernel.Kernel, sess *gocql.Session, op *wireOp, proto int, tra
 			}
 			if op.batchBindNamed {
 				what = "named values in a batch (from a binding callback)"
+			}
+			if op.why != "" {
+				what = op.why
 			}
 			k.Violate("C03", "C03/inexpressible-request-accepted", "%s asked for %s on protocol %d and the call reported success", op.token, what, proto)
 		}
@@ -1553,3 +1573,10 @@ func (a wireStepAuth) Challenge(req []byte) ([]byte, gocql.Authenticator, error)
 }
 
 func (a wireStepAuth) Success(data []byte) error { return nil }
+
+func (op *wireOp) whyText() string {
+	if op.why != "" {
+		return op.why
+	}
+	return "a custom payload"
+}
